@@ -73,7 +73,7 @@ pub fn replay(case: &Value) -> Vec<Violation> {
         "narrow" => c15::replay(case),
         "c09" => c09::replay(case),
         "c03" => c03::replay(case),
-        "c10" | "c10_holder" | "c10_issue" | "c10_reused_pair" => c10::replay(case),
+        "c10" | "c10_holder" | "c10_holder_new" | "c10_issue" | "c10_reused_pair" => c10::replay(case),
         "c07" | "c07_block" => c07::replay(case),
         "c14_schedule" | "c14_history" | "c14_global" | "c14_names" => c14::replay(case),
         "c11_issuer" | "c11_holder" => c11::replay(case),
